@@ -20,7 +20,7 @@ ASSUMES = ["allele frequencies symbolic > 0 summing to one", "error rates symbol
            "lambda symbolic in (0,1) (tau = 2 only, from a parent of any ploidy >= 2 incl. a diploid giving an unreduced gamete) or exactly 0"]
 BOUNDS = {
     "quick": "parent p enumerated up to allele relabelling (thorough: all); trios 2x*2x (3 alleles), 4x*4x (2-3 alleles, with/without lambda), 2x*4x->3x (2 alleles), one/both parents unknown, clones tau=(0,2),(2,0),(4,0) with both parents known (2 alleles); all parent and progeny genotypes enumerated",
-    "thorough": "adds 6x*6x (2 alleles), 4x*4x with 4 alleles, 2x*4x->3x and 4x*2x->3x with 3 alleles, clones tau=(0,2),(0,4),(4,0), 6x*2x->4x, unreduced tau=(2,2) from diploids",
+    "thorough": "adds 6x*6x (2 alleles), 2x*4x->3x and 4x*2x->3x with 3 alleles, clones tau=(0,2),(0,4),(4,0), 6x*2x->4x, unreduced tau=(2,2) from diploids",
 }
 OUTSIDE = "ploidy > 6, more than 4 alleles, float rounding"
 
@@ -30,7 +30,8 @@ QUICK = [(2, 2, 1, 1, 3), (4, 4, 2, 2, 2), (4, 4, 2, 2, 3), (2, 4, 1, 2, 2), (2,
          (2, 2, 0, 2, 2), (2, 2, 2, 0, 2), (4, 2, 4, 0, 2),
          # unreduced (tau = 2) gamete of a diploid next to an unknown parent, with and without double reduction
          (2, 0, 2, 1, 3), (0, 2, 1, 2, 2)]
-THOROUGH = QUICK + [(6, 6, 3, 3, 2), (4, 4, 2, 2, 4), (2, 4, 1, 2, 3), (4, 2, 2, 1, 3), (2, 2, 0, 2, 3), (4, 4, 0, 4, 2), (4, 4, 4, 0, 2),
+# (4x*4x with 4 alleles -- 35 parent genotypes each -- was three quarters of the tier's cost, > 30 min on the loaded sandbox: sized out)
+THOROUGH = QUICK + [(6, 6, 3, 3, 2), (2, 4, 1, 2, 3), (4, 2, 2, 1, 3), (2, 2, 0, 2, 3), (4, 4, 0, 4, 2), (4, 4, 4, 0, 2),
                     (6, 2, 3, 1, 2), (2, 2, 2, 2, 2), (6, 4, 3, 2, 2), (0, 0, 2, 2, 3), (6, 0, 3, 3, 2)]
 
 
